@@ -21,6 +21,54 @@ PAYLOADS = [
 ]
 
 
+def reflect_plans(rng):
+    """a string literal whose text is the printed form of ANOTHER term of the same program (the str()/repr() of a tuple,
+    of an identifier node, of a number, of another string): a renderer that caches or looks terms up by their printed form
+    confuses the two.  Base program: the same program with a harmless string in that place."""
+    L = gen.lit_str
+    shapes = [
+        [("lit", L("FR", quote='"')), ("lit", L("DE", quote='"'))], [("lit", gen.lit_int(1)), ("lit", gen.lit_int(2))],
+        [("lit", gen.lit_float("1.5")), ("lit", L("x", quote='"'))], [("tuple", [("lit", gen.lit_int(1)), ("lit", gen.lit_int(2))]), ("tuple", [("lit", gen.lit_int(3))])],
+        [("id", "home"), ("lit", L("DE", quote='"'))], [("lit", L("it's", quote='"'))], [("lit", gen.lit_int(7))], [("id", "home")],
+    ]
+
+    def pyval(t):
+        if t[0] == "lit":
+            return t[1].value
+        if t[0] == "tuple":
+            return tuple(pyval(x) for x in t[1])
+        return _Ident(t[1])
+
+    class _Ident:
+        def __init__(self, n):
+            self.n = n
+
+        def __repr__(self):
+            return "Identifier(name=%r)" % self.n
+
+    plans = []
+    for members in shapes:
+        tup = ("tuple", members)
+        v = pyval(tup)
+        printed = [str(v), repr(v), str(v).replace("Identifier(name='home')", "home"), str(list(v)), str(v[0]), repr(v[0]), "Identifier(name='home')",
+                   "name='home'", str(v).replace(" ", "")]
+        for text in dict.fromkeys(printed):
+            for order in ("tuple-first", "string-first"):
+                def build(sval):
+                    lit = gen.lit_str(sval, rng)
+                    p_t = ("cmp", ("id", "c"), "in", tup)
+                    p_s = ("cmp", ("id", "note"), "==", ("lit", lit))
+                    r = lambda n: ("ret", [(L(n, quote='"'), "1")])
+                    first, second = (p_t, p_s) if order == "tuple-first" else (p_s, p_t)
+                    cond = ("if", first, r("a"), ("elif", second, ("ret", [(lit, "1"), (L("b", quote='"'), "1")]), ("else", r("o"))))
+                    return gen.Program("e", lit if rng.random() < 0.3 else None, ["u"], cond, {"u": "any", "c": "any", "note": "any", "home": "any"})
+                plans.append([build("zz"), build(text)])
+    return plans
+
+
+PWN_TAILS = ["", "", '"+str(PWNED())+"', "'+str(PWNED())+'", '\rj"+PWNED())): #', "\\"]
+
+
 class Sentinel:
     def __init__(self):
         self.calls = 0
@@ -48,7 +96,8 @@ def subst_program(prog, rng):
     p = copy.deepcopy(prog)
 
     def new_str(old):
-        s = rng.choice(PAYLOADS) if rng.random() < 0.8 else gen.rand_string(rng, 8)
+        r = rng.random()
+        s = rng.choice(PAYLOADS) if r < 0.7 else gen.long_string(rng, PWN_TAILS) if r < 0.85 else gen.rand_string(rng, 8)
         return gen.lit_str(s, rng)
 
     def term(t):
@@ -155,6 +204,7 @@ def run_batch(ctx, n, with_model=True):
                                                     p_salt=0.9, tuples_with_idents=False))
             variants = [prog] + [subst_program(prog, rng) for _ in range(4)]
             plan.append(variants)
+        plan += reflect_plans(rng)
         reqs = [{"op": "run", "text": gen.render(v), "envs": []} for vs in plan for v in vs]
         models = [None] * len(reqs)
         if with_model and ctx.driver_ok:
